@@ -65,6 +65,13 @@ func (r *RoutingTable) verifyRoutingTable(id uint64, table map[uint64]*route) er
 	if r.config.PartitionCount != uint64(len(table)) {
 		return fmt.Errorf("invalid partition count: %d", len(table))
 	}
+
+	// Every entry must name an existing partition and carry its owner lists.
+	for partID, data := range table {
+		if partID >= r.config.PartitionCount || data == nil {
+			return fmt.Errorf("invalid routing table entry for partition id: %d", partID)
+		}
+	}
 	return nil
 }
 
